@@ -21,7 +21,7 @@ func evMergeExt(t *Tracer, w Win, ids []ID, h, v int64) {
 		r2, err = integrate.MergeExtendedSpatialIds(in2, w.H0+h, w.V0+v) // idempotence: merge its own output
 		return r1, err
 	})
-	e := w.ev("MergeExt", map[string]any{"ids": idsArr(ids), "h": h, "v": v, "kept": sameStrings(real, snap)})
+	e := w.ev("MergeExt", map[string]any{"ids": idsArr(ids), "h": h, "v": v, "kept": intact(real, snap)})
 	e.O, e.Real = o, map[string]any{"ids": snap, "h": w.H0 + h, "v": w.V0 + v}
 	e.R = []any{}
 	if o != "panic" {
@@ -47,7 +47,7 @@ func evMergeSp(t *Tracer, w Win, ids []ID, z int64) {
 		r2, err = integrate.MergeSpatialIds(in2, w.H0+z)
 		return r1, err
 	})
-	e := w.ev("MergeSp", map[string]any{"ids": idsSpArr(ids), "z": z, "kept": sameStrings(real, snap)})
+	e := w.ev("MergeSp", map[string]any{"ids": idsSpArr(ids), "z": z, "kept": intact(real, snap)})
 	e.O, e.Real = o, map[string]any{"ids": snap, "z": w.H0 + z}
 	e.R = []any{}
 	if o != "panic" {
